@@ -2668,7 +2668,7 @@ class Processor:
             if isinstance(data, (CommentedMap, ryod)):
                 for i, k in [
                         (idx, key) for idx, key in enumerate(data.keys())
-                        if key is reference_node
+                        if key is reference_node and hasattr(key, "anchor")
                 ]:
                     data.insert(i, replacement_node, data.pop(k))
                 for k, val in data.non_merged_items():
@@ -2682,7 +2682,8 @@ class Processor:
             elif isinstance(data, (CommentedSeq, list)):
                 for idx, item in enumerate(data):
                     if item is reference_node and (
-                            data is parent or hasattr(item, "anchor")):
+                            hasattr(item, "anchor")
+                            or (data is parent and idx == parentref)):
                         data[idx] = replacement_node
                     else:
                         recurse(item, parent, parentref, reference_node,
@@ -2734,6 +2735,11 @@ class Processor:
                     else:
                         recurse(val, parent, parentref, reference_node,
                                 replacement_node)
+
+        if (isinstance(parent, (CommentedSeq, list))
+                and isinstance(parentref, int) and parentref < 0):
+            # Normalize a negative index; recurse() compares positions
+            parentref += len(parent)
 
         change_node = None
         if isinstance(parent, (set, CommentedSet)):
